@@ -542,6 +542,26 @@ class Tr:
             return "(" + getter.format(obj=o) + ")", fty
         if isinstance(e, ast.Name) and e.id.startswith("MATCHCLASS:"):
             return "(" + e.id[len("MATCHCLASS:"):] + ")", ("bool",)
+        if isinstance(e, ast.Name) and e.id.startswith("KDICTITEMS:"):      # d.items() of a `kdict K V` as a loop source
+            d = e.id[len("KDICTITEMS:"):]
+            return d, ("list", ("tuple", (env[d][1], env[d][2])))
+        if isinstance(e, ast.IfExp) and self.cfg.get("if_expr"):
+            # cfg["if_expr"]: `a if c else b` - the test is evaluated first; neither branch may raise (a hoisted call would be
+            # evaluated unconditionally); the branches must have one type, possibly after a declared coercion of one of them
+            c = self.cond(e.test, env, hoist)
+            ha, hb = [], []
+            a, at = self.expr(e.body, env, ha)
+            b, bt = self.expr(e.orelse, env, hb)
+            if ha or hb:
+                raise Unsupported("conditional expression whose branch may raise: " + ast.unparse(e))
+            if at != bt:
+                try:
+                    b, bt = self.need(b, bt, at, hb), at
+                except Unsupported:
+                    a, at = self.need(a, at, bt, ha), bt
+                if ha or hb:
+                    raise Unsupported("conditional expression whose branch may raise: " + ast.unparse(e))
+            return "(if %s then %s else %s)" % (c, a, b), at
         if isinstance(e, ast.Name):
             if e.id not in env:
                 raise Unsupported("read of a variable that is not bound here: %s" % e.id)
@@ -930,6 +950,10 @@ class Tr:
         v, t = self.expr(e, env, hoist)
         if t == ("bool",):
             return v
+        if t[0] == "opt" and len(t[1]) == 1 and t[1][0] in self.cfg.get("truthy", {}):
+            # cfg["truthy"] = {type name: Gallina predicate}: the truth value of an Optional object of that type is false for None,
+            # else the declared predicate (bool(o)) - instead of the default "an opaque object is true"
+            return "(match %s with Some o__ => %s o__ | None => false end)" % (v, self.cfg["truthy"][t[1][0]])
         if t[0] == "kdict":      # truth value of a dict: it is not empty
             return "(negb (is_nil %s))" % v
         if t[0] == "opt" and t[1][0] == "kdict":      # truth value of an Optional[dict]: None and {} are false
@@ -2074,6 +2098,10 @@ class Tr:
         # a nested target `i, (a, b, c)`: its top-level components stand in until the element types are known
         tnames = self.targets(st.target) if not nest else ["nested:%d" % i for i in range(len(st.target.elts))]
         it = st.iter
+        if isinstance(it, ast.Call) and isinstance(it.func, ast.Attribute) and it.func.attr == "items" and not it.args and not it.keywords \
+                and isinstance(it.func.value, ast.Name) and env.get(it.func.value.id, ("unit",))[0] == "kdict":
+            # `for k, v in d.items()` over a `kdict K V`: the list of its (key, value) pairs, in the dict's order
+            it = ast.Name(id="KDICTITEMS:" + it.func.value.id, ctx=ast.Load())
         # what is iterated
         if isinstance(it, ast.Call) and isinstance(it.func, ast.Attribute) and it.func.attr == "items" and not it.args:
             d, dt = self.expr(it.func.value, env, hoist)
@@ -2353,6 +2381,52 @@ class YieldToAppend(ast.NodeTransformer):
                             args=[node.value.value], keywords=[])
             return ast.copy_location(ast.Expr(value=call), node)
         return node
+class LoopReturn(ast.NodeTransformer):
+    """cfg["loop_return"] = True: `return e` inside a `for` loop that is a TOP-LEVEL statement of the function (not inside a nested
+    loop, a `with` or a `try`) is rewritten, before translation, into
+        loop_ret = None; for ...: ... loop_ret = e; break ...; if loop_ret is not None: return loop_ret
+    where loop_ret is a fresh variable of type `opt T`, T the function's return type (so a returned None is `Some None`: the
+    test after the loop distinguishes "returned" from "fell off the end").  `break` then means what it meant (the loop is left);
+    a loop that already contains a `break` of its own, or a `return` nested deeper, is refused."""
+
+    def __init__(self):
+        self.n = 0
+
+    def rewrite_body(self, stmts):
+        out = []
+        for st in stmts:
+            if isinstance(st, ast.Return):
+                out.append(ast.copy_location(ast.Assign(targets=[ast.Name(id="loop_ret", ctx=ast.Store())],
+                                                        value=st.value if st.value is not None else ast.Constant(value=None)), st))
+                out.append(ast.copy_location(ast.Break(), st))
+            elif isinstance(st, ast.If):
+                st.body = self.rewrite_body(st.body)
+                st.orelse = self.rewrite_body(st.orelse)
+                out.append(st)
+            else:
+                if any(isinstance(n, ast.Return) for n in ast.walk(st)):
+                    raise Unsupported("return nested in a loop / with / try inside a for loop")
+                out.append(st)
+        return out
+
+    def visit_FunctionDef(self, f):
+        body = []
+        for st in f.body:
+            if isinstance(st, ast.For) and any(isinstance(n, ast.Return) for n in ast.walk(st)):
+                if any(isinstance(n, ast.Break) for n in ast.walk(st)) or st.orelse or self.n:
+                    raise Unsupported("return inside a for loop that also breaks / has an else clause / a second such loop")
+                self.n += 1
+                st.body = self.rewrite_body(st.body)
+                body.append(ast.copy_location(ast.Assign(targets=[ast.Name(id="loop_ret", ctx=ast.Store())], value=ast.Constant(value=None)), st))
+                body.append(st)
+                test = ast.Compare(left=ast.Name(id="loop_ret", ctx=ast.Load()), ops=[ast.IsNot()], comparators=[ast.Constant(value=None)])
+                body.append(ast.copy_location(ast.If(test=test, body=[ast.Return(value=ast.Name(id="loop_ret", ctx=ast.Load()))], orelse=[]), st))
+            else:
+                body.append(st)
+        f.body = body
+        return f
+
+
 def check_inherits(tree, cfg):
     """cfg["inherits"] = [(subclass, base, [method names])]: the subclass has that single base and defines none of the methods"""
     for sub, base, names in cfg.get("inherits", []):
@@ -2404,6 +2478,13 @@ def translate(source_text, cfg):
         cfg["vars"] = dict(cfg["vars"], yielded="list " + cfg["generator"])
         cfg["predefine"] = dict(cfg.get("predefine", {}), yielded="[]")
         cfg["implicit_return"] = "{yielded}"
+    if cfg.get("loop_return"):      # `return` inside a top-level for loop: rewritten into a flag variable + break (LoopReturn)
+        if any(n.id == "loop_ret" for n in ast.walk(f) if isinstance(n, ast.Name)):
+            raise Unsupported("the function uses the name loop_ret itself")
+        f = LoopReturn().visit(f)
+        ast.fix_missing_locations(f)
+        cfg = dict(cfg)
+        cfg["vars"] = dict(cfg["vars"], loop_ret="opt " + cfg["returns"])
     if cfg.get("body_slice") and cfg.get("outside_names") is not None:
         check_outside_names(f, slice_body(f, cfg["body_slice"]), cfg["outside_names"])
     if cfg.get("body_slice"):
